@@ -585,6 +585,101 @@ def f_entry(tfns, F):
     raise TranslateError("find_equivalent_patterns: unrecognised text")
 
 
+HEX_BYTES = ["bytes1 = bytes.fromhex(value1.value)", "bytes2 = bytes.fromhex(value2.value)", "return generic_cmp(bytes1, bytes2)"]
+BIN_BYTES = ["bytes1 = base64.standard_b64decode(value1.value)", "bytes2 = base64.standard_b64decode(value2.value)",
+             "return generic_cmp(bytes1, bytes2)"]
+BOOL_TEXT = ["value1 = value1.value", "value2 = value2.value",
+             "if value1 and value2 or (not value1 and (not value2)):\n    result = 0\nelif value1:\n    result = -1\nelse:\n    result = 1",
+             "return result"]
+LIST_SORT = ["sorted_value1 = sorted(value1.value, key=functools.cmp_to_key(constant_cmp))",
+             "sorted_value2 = sorted(value2.value, key=functools.cmp_to_key(constant_cmp))"]
+ITER_LEX = ["it1 = iter(seq1)", "it2 = iter(seq2)", "it1_exhausted = it2_exhausted = False",
+            "while True:\n    try:\n        val1 = next(it1)\n    except StopIteration:\n        it1_exhausted = True\n"
+            "    try:\n        val2 = next(it2)\n    except StopIteration:\n        it2_exhausted = True\n"
+            "    if it1_exhausted and it2_exhausted:\n        result = 0\n        break\n"
+            "    elif it1_exhausted:\n        result = -1\n        break\n"
+            "    elif it2_exhausted:\n        result = 1\n        break\n"
+            "    else:\n        val_cmp = cmp(val1, val2)\n        if val_cmp != 0:\n            result = val_cmp\n            break",
+            "return result"]
+
+
+def _is_int16(e, var):
+    return up(e) == "int(%s.value, 16)" % var
+
+
+def f_const_comparators(fns, gfns, F):
+    if text(need(gfns, "generic_cmp")) != ["return -1 if value1 < value2 else 1 if value1 > value2 else 0"]:
+        raise TranslateError("generic_cmp: unrecognised text")
+    if text(need(gfns, "iter_lex_cmp")) != ITER_LEX:
+        raise TranslateError("iter_lex_cmp: unrecognised text")
+    if text(need(gfns, "iter_in")) != ["result = False", "for seq_val in seq:\n    if cmp(value, seq_val) == 0:\n        result = True\n        break",
+                                       "return result"]:
+        raise TranslateError("iter_in: unrecognised text")
+    h = need(fns, "hex_cmp")
+    t = text(h)
+    if t == HEX_BYTES:
+        F["hex_cmp"] = "HexBytes"
+    else:
+        b = _strip_doc(h.body)
+        if len(b) == 3 and all(isinstance(x, ast.Assign) and len(x.targets) == 1 for x in b[:2]) and _is_int16(b[0].value, "value1") \
+                and _is_int16(b[1].value, "value2") and up(b[2]) == "return generic_cmp(%s, %s)" % (up(b[0].targets[0]), up(b[1].targets[0])):
+            F["hex_cmp"] = "HexNumber"
+        else:
+            raise TranslateError("hex_cmp: unrecognised text")
+    if text(need(fns, "bin_cmp")) != BIN_BYTES:
+        raise TranslateError("bin_cmp: unrecognised text")
+    if text(need(fns, "bool_cmp")) != BOOL_TEXT:
+        raise TranslateError("bool_cmp: unrecognised text")
+    lfn = need(fns, "list_cmp")
+    t = text(lfn)
+    if t[:2] != LIST_SORT or t[-1] != "return result":
+        raise TranslateError("list_cmp: the two lists are not sorted by constant_cmp first")
+    if t[2:-1] == ["result = iter_lex_cmp(sorted_value1, sorted_value2, constant_cmp)"]:
+        F["list_cmp"] = "ListLex"
+    elif any(isinstance(n, ast.Call) and up(n) == "zip(sorted_value1, sorted_value2)" for n in ast.walk(lfn)) \
+            and "iter_lex_cmp" not in ast.unparse(lfn):
+        F["list_cmp"] = "ListZip"
+    else:
+        raise TranslateError("list_cmp: unrecognised comparison of the sorted lists")
+
+
+RECURSE = "distributed_children = [self.transform(child)[0] for child in distributed_children]"
+DNF_O = ("if any((isinstance(child, OrObservationExpression) for child in ast.operands)):\n    iterables = []\n    for child in ast.operands:\n"
+         "        if isinstance(child, OrObservationExpression):\n            iterables.append(child.operands)\n        else:\n"
+         "            iterables.append((child,))\n    root_type = type(ast)\n"
+         "    distributed_children = [root_type([_dupe_ast(sub_ast) for sub_ast in itertools.chain(prod_seq)]) for prod_seq in itertools.product(*iterables)]\n"
+         "%s    result = OrObservationExpression(distributed_children)\n    changed = True\nelse:\n    result = ast\n    changed = False")
+DNF_C_HEAD = ["or_children = []", "other_children = []", "changed = False",
+              "for child in ast.operands:\n    if isinstance(child, _BooleanExpression) and child.operator == 'OR':\n"
+              "        or_children.append(child.operands)\n    else:\n        other_children.append(child)"]
+DNF_C = ("if or_children:\n    distributed_and_arg_sets = (itertools.chain(other_children, prod_seq) for prod_seq in itertools.product(*or_children))\n"
+         "    distributed_children = []\n    for and_arg_set in distributed_and_arg_sets:\n        try:\n"
+         "            and_node = AndBooleanExpression((_dupe_ast(arg) for arg in and_arg_set))\n        except ValueError:\n            pass\n"
+         "        else:\n            distributed_children.append(and_node)\n"
+         "%s    result = OrBooleanExpression(distributed_children)\n    changed = True\nelse:\n    result = ast")
+
+
+def f_dnf(cfns, ofns, F):
+    t = text(need(ofns, "DNFTransformer.__transform"))
+    if len(t) == 2 and t[1] == "return (result, changed)" and t[0] == DNF_O % ("    " + RECURSE + "\n"):
+        F["dnf_o_recursive"] = "true"
+    elif len(t) == 2 and t[1] == "return (result, changed)" and t[0] == DNF_O % "":
+        F["dnf_o_recursive"] = "false"
+    else:
+        raise TranslateError("observation DNFTransformer.__transform: unrecognised text")
+    t = text(need(cfns, "DNFTransformer.transform_and"))
+    if len(t) == 6 and t[:4] == DNF_C_HEAD and t[5] == "return (result, changed)" and t[4] == DNF_C % ("    " + RECURSE + "\n"):
+        F["dnf_c_recursive"] = "true"
+    elif len(t) == 6 and t[:4] == DNF_C_HEAD and t[5] == "return (result, changed)" and t[4] == DNF_C % "":
+        F["dnf_c_recursive"] = "false"
+    else:
+        raise TranslateError("comparison DNFTransformer.transform_and: unrecognised text")
+    for k, names in ((ofns, ("DNFTransformer.transform_and", "DNFTransformer.transform_followedby")),):
+        for n in names:
+            if text(need(k, n)) != ["return self.__transform(ast)"]:
+                raise TranslateError("observation %s: unrecognised text" % n)
+
+
 C_CLASSES = {"FlattenTransformer": "PFlatten", "OrderDedupeTransformer": "POrder", "AbsorptionTransformer": "PAbsorb"}
 
 
@@ -596,6 +691,8 @@ def facts(repo):
     F["obs_type_order"] = table(fns["ocmp"], "_OBSERVATION_EXPRESSION_TYPE_ORDER", OKINDS, False)
     F["qual_type_order"] = table(fns["ocmp"], "_QUALIFIER_TYPE_ORDER", QKINDS, False)
     f_constant_cmp(fns["ccmp"], F)
+    f_const_comparators(fns["ccmp"], collect(parse(os.path.join(repo, P, "compare", "__init__.py"))), F)
+    f_dnf(fns["ctr"], fns["otr"], F)
     f_simple_cmp(fns["ccmp"], F)
     f_ccmp(fns["ccmp"], F)
     f_ocmp(fns["ocmp"], F)
@@ -660,6 +757,12 @@ def translate(repo, _py=None):
         "(* constant_cmp: a number against a constant of another type, on the left / on the right *)",
         "Definition src_num_first : comparison := %s." % F["num_first"],
         "Definition src_num_second : comparison := %s." % F["num_second"],
+        "(* hex_cmp on the decoded bytes; list_cmp lexicographic on the sorted members *)",
+        "Definition src_hex_cmp : hex_kind := %s." % F["hex_cmp"],
+        "Definition src_list_cmp : list_kind := %s." % F["list_cmp"],
+        "(* both DNF transformers transform the terms they have just built again *)",
+        "Definition src_dnf_redistributes_c : bool := %s." % F["dnf_c_recursive"],
+        "Definition src_dnf_redistributes_o : bool := %s." % F["dnf_o_recursive"],
         "(* simple_comparison_expression_cmp: the fields compared, in order *)",
         "Definition src_atom_steps : list astep := %s." % coq_list(F["atom_steps"]),
         "(* _dupe_ast (comparison level): what the duplicate of a comparison is built from *)",
